@@ -611,6 +611,8 @@ def run(facts, res):
                             if l.kind != "call" or l.truth is not True or not l.term[2]:
                                 return False
                             n_ = callee_name(l.term)
+                            if l.term[4] is not None and _kinds_only(facts, l.term[4].target(), SPECIAL) is not None:
+                                return True
                             return (n_ in SPECIAL and peel(l.term[2][0])[0] == "param") or \
                                 (n_ == "contains_key" and "committed_objects" in field_path(l.term[2][0])[0])
                         ok = bool(ins_) and all(_acc(l) for l in ins_)
@@ -630,7 +632,8 @@ def run(facts, res):
                 n_true += 1
                 ct = du.call_term(t, bi, 12)
                 ok = (t.callee.name in ("is_ok", "contains_key", "is_some") and contains_call(ct, "read_object", R.name("obj_reader"), "contains_key")) or \
-                    (t.callee.name in SPECIAL and ct[2] and peel(ct[2][0])[0] == "param")
+                    (t.callee.name in SPECIAL and ct[2] and peel(ct[2][0])[0] == "param") or \
+                    (_kinds_only(facts, t.callee.target(), SPECIAL) is not None and ct[2] and any(peel(a_)[0] == "param" for a_ in ct[2]))
                 res.instance("A5", "%s returns %s" % (pp, fmt(ct, 4)), pb.loc(t.line))
                 if not ok:
                     res.violation("A5", "%s|unrecognised-result" % pp, "%s returns %s, not a membership / verified-read result" % (pp, fmt(ct, 4)), pb.loc(t.line))
@@ -641,12 +644,20 @@ def run(facts, res):
         # (a committed resolution) Blocked for ever on a reopened replica
         wo = facts.body("datastorage::DataStorage::write_object")
         if wo is not None:
-            skipped = {t.callee.name for _, t in wo.calls() if t.callee is not None and t.callee.name in SPECIAL}
-            accepted = set()
-            for mb_ in [pb]:
-                for _, t in mb_.calls():
-                    if t.callee is not None and t.callee.name in SPECIAL:
-                        accepted.add(t.callee.name)
+            def kinds_of(fb_):
+                out_ = set()
+                for _, t in fb_.calls():
+                    if t.callee is None:
+                        continue
+                    if t.callee.name in SPECIAL:
+                        out_.add(t.callee.name)
+                    else:
+                        k_ = _kinds_only(facts, t.callee.target(), SPECIAL)
+                        if k_:
+                            out_ |= k_
+                return out_
+            skipped = kinds_of(wo)
+            accepted = kinds_of(pb)
             uses_reader = any(t.callee is not None and t.callee.name in ("read_object", R.name("obj_reader")) for _, t in pb.calls())
             missing = sorted(skipped - accepted) if not uses_reader else []
             res.instance("A5", "%s accepts every revision kind write_object stores nothing for (%s): %s" % (pp, sorted(skipped), not missing), pb.loc())
@@ -655,6 +666,18 @@ def run(facts, res):
                 res.violation("A5", "%s|no-object-kind-not-accepted:%s" % (pp, ",".join(missing)),
                               "%s does not answer `available` for revisions of kind %s, although DataStorage::write_object stores no object for them: "
                               "a block that records such a revision can never become Ready" % (pp, missing), pb.loc())
+
+
+def _kinds_only(facts, path, special):
+    """the revision kinds a crate predicate tests, if it does nothing else (`fn has_no_object(rev) -> bool { rev.is_deleted() || .. }`);
+    None for anything else"""
+    fb = facts.body(path)
+    if fb is None or not fb.in_repo() or fb.kind == "closure" or fb.local_ty(0) != "bool":
+        return None
+    names = [t.callee.name if t.callee is not None else None for _, t in fb.calls()]
+    if not names or any(n_ not in special for n_ in names):
+        return None
+    return set(names)
 
 
 def _same_delta(body, block, arg, facts):
